@@ -12,6 +12,7 @@ def run(ctx):
         "result wrapped in type(self)/CircularRecord. The copy constructor it may go through keeps features and letter "
         "annotations (deep copies of all four containers). These are necessary conditions; the per-feature arithmetic and "
         "commutation with rotation live in Biopython."
+        ' no-derived-state as for C13; a hand-written per-feature clone in the copy constructor is judged (provably unfaithful: reported; provably faithful: accepted; otherwise undecided).'
     )
     r.not_decided = ["everything computed by Biopython's reverse_complement/_flip"]
     ctx.guard(revcomp_wrapper_rule, ctx, "C14.revcomp")
